@@ -109,6 +109,7 @@ def pJV : Nat → List Char → Option (JV × List Char)
       else if a = "b:0" then some (.bool false, r) else if a = "b:1" then some (.bool true, r)
       else match a.splitOn ":" with
         | ["s", h] => (bytes? h).map (fun b => (.str b, r))
+        | ["s16", h] => (units? h).map (fun us => (.str (OttoVerif.Str.bytesOfUnits us), r))   -- a []uint16-held string
         | ["s"] => some (.str [], r)
         | _ => (num? a).map (fun n => (.num n, r))
 def pJVs : Nat → List Char → Option (JVs × List Char)
@@ -321,7 +322,7 @@ def mapOut (r : GPs × List MObs) : String :=
   ";".intercalate (os.map mobsOut) ++ (if failed then "" else ";G" ++ gvOut (.map m))
 
 def initMap (et : GT) (s : String) : Option GPs :=
-  if s = "-" then some .nil else
+  if s = "-" ∨ s = "nil" then some .nil else
   (allSome ((s.splitOn ",").map (fun kv => match kv.splitOn "=" with
     | [k, n] => (int? n).map (fun n => (asciiStr k, goElem et n))
     | _ => none))).map (fun l => l.foldl (fun m kv => GPs.set kv.1 kv.2 m) .nil)
@@ -472,6 +473,18 @@ def handleRecs (ws : List String) : String :=
      | _, _ => "bad-op")
   | _ => "bad-op"
 
+
+def cbKind? : String → Option CbKind
+  | "ret" => some .ret | "range" => some .throwRange | "type" => some .throwType | "num" => some .throwNum
+  | "str" => some .throwStr | "obj" => some .throwObj | "retstr" => some .retStr | "retfrac" => some .retFrac
+  | "uncaught" => some .uncaught | _ => none
+
+def cbOut : CbObs → String
+  | .ok n => "ok:" ++ toString n
+  | .caughtError name msg => "caught:" ++ strOf name ++ ":" ++ strOf msg ++ ":instanceof"
+  | .caughtValue ty text => "caught:" ++ strOf ty ++ ":" ++ strOf text
+  | .runError name => "throw:" ++ strOf name
+
 def handle (ws : List String) : String :=
   match ws with
   | ["num", t, n] => match nt? t, num? n with
@@ -520,7 +533,7 @@ def handle (ws : List String) : String :=
        (match initMap et init, opsL with
         | some m, some ol =>
           let dev := ol.foldl (fun acc op => match op with | .jsWrite _ v => addDevs acc (devStore v et) | _ => acc) []
-          reply (mapOut (mapRun modelStore et m ol)) (mapOut (mapRun Spec.store et m ol)) dev
+          reply (mapOut (mapRun modelStore et (init = "nil") m ol)) (mapOut (mapRun Spec.store et (init = "nil") m ol)) dev
         | _, _ => "bad-op")
      | none => "bad-op")
   | ["struct", t, ops] =>
@@ -537,6 +550,9 @@ def handle (ws : List String) : String :=
      | none => "bad-op")
   | "view" :: rest => handleView rest
   | "recs" :: rest => handleRecs rest
+  | ["cb", k] => (match cbKind? k with
+      | some k => reply (cbOut (callbackOutcome k)) (cbOut (callbackOutcome k)) []
+      | none => "bad-op")
   | ["ret", k] => (match nat? k with | some k => reply (retOut k) (retOut k) [] | none => "bad-op")
   | _ => "bad-op"
 
